@@ -83,6 +83,7 @@ def SimpleFins : List Frame → Prop
   | [] => True
   | .tryK _ (some fb) :: k => (∃ vs, fb = litLogs vs) ∧ SimpleFins k
   | .catchK (some fb) :: k => (∃ vs, fb = litLogs vs) ∧ SimpleFins k
+  | .finK (some (.ret _ true)) _ :: _ => False    -- (a second return() abandoning a return-triggered finally: excluded)
   | _ :: k => SimpleFins k
 
 def blockLogs : List Stmt → List Event
@@ -149,7 +150,17 @@ theorem unwind_ret (v : Val) (b : Bool) (k : List Frame) (env : List Val) (hk : 
         obtain ⟨⟨vs, hvs⟩, hk'⟩ := hk
         exact fin vs fb hvs (by rfl) hk' (by simp [finLogs])
     | forOfK x it body => exact pop (iterClose it) (by simp [step, stepAbrupt, StepOut.addEv, throwMarks, isBrk]) hk (by simp [finLogs])
-    | finK p a => exact pop [] (by simp [step, stepAbrupt, StepOut.addEv, throwMarks, defectMarks]) hk (by simp [finLogs])
+    | finK p a =>
+      cases p with
+      | none => exact pop [] (by simp [step, stepAbrupt, StepOut.addEv, throwMarks, defectMarks]) hk (by simp [finLogs])
+      | some cp =>
+        cases cp with
+        | thr _ => exact pop [] (by simp [step, stepAbrupt, StepOut.addEv, throwMarks, defectMarks]) hk (by simp [finLogs])
+        | brk => exact pop [] (by simp [step, stepAbrupt, StepOut.addEv, throwMarks, defectMarks]) hk (by simp [finLogs])
+        | ret _ fc =>
+          cases fc with
+          | true => exact absurd hk (by simp [SimpleFins])
+          | false => exact pop [] (by simp [step, stepAbrupt, StepOut.addEv, throwMarks, defectMarks]) hk (by simp [finLogs])
     | whileBodyK cd body => exact pop [] (by simp [step, stepAbrupt, StepOut.addEv, throwMarks, isBrk]) hk (by simp [finLogs])
     | forArrK x r body => exact pop [] (by simp [step, stepAbrupt, StepOut.addEv, throwMarks, isBrk]) hk (by simp [finLogs])
     | _ => exact pop [] (by rfl) hk (by simp [finLogs])
